@@ -63,6 +63,17 @@ def gen_cell(name, ty, kind, heap, tp):
             f"    pub fn load{gen}(&self, h: &{heap}, o: AtomicOrdering) -> (r: {ty}) ensures r == h.{name} {{ h.{name} }}",
             f"    pub fn store{gen}(&self, h: &mut {heap}, v: {ty}, o: AtomicOrdering) ensures {upd(f'{name}: v')} {{ h.{name} = v; }}",
         ]
+        out += [
+            f"    pub fn swap{gen}(&self, h: &mut {heap}, v: {ty}, o: AtomicOrdering) -> (r: {ty}) ensures r == old(h).{name}, {upd(f'{name}: v')} {{ let r = h.{name}; h.{name} = v; r }}",
+            f"    pub fn compare_exchange{gen}(&self, h: &mut {heap}, cur: {ty}, new: {ty}, o1: AtomicOrdering, o2: AtomicOrdering) -> (r: Result<{ty}, {ty}>)",
+            f"        ensures old(h).{name} == cur ==> r == Ok::<{ty}, {ty}>(cur) && {upd(f'{name}: new')}, old(h).{name} != cur ==> r == Err::<{ty}, {ty}>(old(h).{name}) && *final(h) == *old(h),",
+            f"    {{ if h.{name} == cur {{ h.{name} = new; Ok(cur) }} else {{ Err(h.{name}) }} }}",
+        ]
+        if ty == "bool":
+            out += [
+                f"    pub fn fetch_or{gen}(&self, h: &mut {heap}, v: bool, o: AtomicOrdering) -> (r: bool) ensures r == old(h).{name}, {upd(f'{name}: (old(h).{name} || v)')} {{ let r = h.{name}; h.{name} = r || v; r }}",
+                f"    pub fn fetch_and{gen}(&self, h: &mut {heap}, v: bool, o: AtomicOrdering) -> (r: bool) ensures r == old(h).{name}, {upd(f'{name}: (old(h).{name} && v)')} {{ let r = h.{name}; h.{name} = r && v; r }}",
+            ]
         if ty == "usize":
             out += [
                 f"    /// std::sync::atomic fetch_add / fetch_sub wrap around on overflow and return the previous value",
@@ -74,12 +85,16 @@ def gen_cell(name, ty, kind, heap, tp):
                 f"        ensures r == old(h).{name}, {upd(f'{name}: final(h).{name}')},",
                 f"            final(h).{name} as int == (if old(h).{name} < d {{ old(h).{name} - d + usize::MAX + 1 }} else {{ old(h).{name} - d }})",
                 f"    {{ let r = h.{name}; h.{name} = h.{name}.wrapping_sub(d); r }}",
+                f"    pub fn fetch_max{gen}(&self, h: &mut {heap}, v: usize, o: AtomicOrdering) -> (r: usize) ensures r == old(h).{name}, {upd(f'{name}: (if old(h).{name} >= v {{ old(h).{name} }} else {{ v }})')} {{ let r = h.{name}; if v > r {{ h.{name} = v; }} r }}",
+                f"    pub fn fetch_min{gen}(&self, h: &mut {heap}, v: usize, o: AtomicOrdering) -> (r: usize) ensures r == old(h).{name}, {upd(f'{name}: (if old(h).{name} <= v {{ old(h).{name} }} else {{ v }})')} {{ let r = h.{name}; if v < r {{ h.{name} = v; }} r }}",
             ]
     elif kind == "swap_option":
         out += [
             f"    pub fn alloc{gen}(h: &mut {heap}, v: {ty}) -> (r: {C}) ensures {upd(f'{name}: v, alloc_{name}: true')} {{ h.{name} = v; h.alloc_{name} = true; {C} {{}} }}",
             f"    pub fn load{gen}(&self, h: &{heap}) -> (r: {ty}) ensures r == h.{name} {{ h.{name} }}",
             f"    pub fn store{gen}(&self, h: &mut {heap}, v: {ty}) ensures {upd(f'{name}: v')} {{ h.{name} = v; }}",
+            f"    pub fn swap{gen}(&self, h: &mut {heap}, v: {ty}) -> (r: {ty}) ensures r == old(h).{name}, {upd(f'{name}: v')} {{ let r = h.{name}; h.{name} = v; r }}",
+            f"    pub fn load_full{gen}(&self, h: &{heap}) -> (r: {ty}) ensures r == h.{name} {{ h.{name} }}",
         ]
     elif kind == "swap":
         out += [
@@ -381,11 +396,11 @@ def weave(op_file, cfg):
     tp = (re.search(r"^//@tp\s+(.+)$", text, re.M) or [None, ""])[1].strip()
     celltp = re.search(r"^//@celltp[ \t]*(.*)$", text, re.M)
     celltp = celltp.group(1).strip() if celltp else tp
-    parts = [(a, f"{b} {c}".strip()) for a, b, c in re.findall(r"^//@invpart\s+(\w+)\s+(@C\d+)\s*(.*)$", text, re.M)]
+    parts = [(a, f"{b} {c}".strip()) for a, b, c in re.findall(r"^//@invpart\s+(\w+)\s+(@C\d+(?:,C\d+)*)\s*(.*)$", text, re.M)]
     tokens = dict((a, b.strip()) for a, b in re.findall(r"^//@token\s+(\w+)\s*=>\s*(.+)$", text, re.M))
     ignores = dict((a, b) for a, b in re.findall(r"^//@ignore\s+(\w+)\s*=\s*(.*)$", text, re.M))
     nogate = set(sum((x.split() for x in re.findall(r"^//@nogate[ \t]+(.+)$", text, re.M)), []))
-    et = re.search(r"^//@extratag[ \t]+(@C\d+.*)$", text, re.M)
+    et = re.search(r"^//@extratag[ \t]+(@C\d+(?:,C\d+)*.*)$", text, re.M)
     extratag = et.group(1).strip() if et else "@C04 operator-specific side condition of the call"
     text = split_by_message(text)
     text, invs = take_invariants(text)
